@@ -62,7 +62,7 @@ struct State {
   SaKnobs knobs;
   std::vector<BlockInfo> blocks;                    // by id (id = index)
   std::unordered_map<const void*, uint64_t> live;   // user pointer -> id (never iterated for output)
-  uint64_t live_bytes = 0, total_requests = 0;
+  uint64_t live_bytes = 0, total_requests = 0, live_xor = 0;
   OpWindow win[SA_MAX_TASKS];
   Arena arena[2];
   bool arenas_ready = false;
@@ -88,7 +88,7 @@ bool should_refuse(OpWindow& w, bool is_realloc, size_t size) {
     case F_QUOTA: refuse = (S.live_bytes + size > w.fault.k); break;
     default: break;
   }
-  if (refuse) sa_fired[kind]++;
+  if (refuse) { sa_fired[kind]++; w.refused_injected++; }
   if (!refuse && size > S.knobs.max_request) { refuse = true; sa_fired_toolarge++; }
   return refuse;
 }
@@ -148,7 +148,7 @@ void backend_release(BlockInfo& b) {
 uint64_t new_block(unsigned char* p, size_t n, uint8_t origin, int arena_idx) {
   BlockInfo b; b.id = S.blocks.size(); b.user = p; b.size = n; b.live = true; b.origin = origin; b.task = sched_cur(); b.arena = arena_idx;
   S.blocks.push_back(b);
-  S.live[p] = b.id;
+  S.live[p] = b.id; S.live_xor ^= mix64(b.id + 1);
   S.live_bytes += n;
   return b.id;
 }
@@ -158,7 +158,7 @@ void* do_alloc(size_t n, uint8_t origin, bool is_realloc_req) {
   bool refuse = should_refuse(w, is_realloc_req, n);
   w.requests++; S.total_requests++;
   if (is_realloc_req) { w.reallocs++; w.realloc_req++; } else w.mallocs++;
-  if (refuse) { w.refused++; g_log.ev("refuse", n, origin, sched_cur()); return nullptr; }
+  if (refuse) { w.refused++; if (w.first_refused == ~0ull) w.first_refused = w.requests - 1; g_log.ev("refuse", n, origin, sched_cur()); return nullptr; }
   int ai; unsigned char* p = backend_alloc(n, &ai);
   if (!p) { w.refused++; sa_fired_toolarge++; g_log.ev("refuse-backend", n, origin, sched_cur()); return nullptr; }
   uint64_t id = new_block(p, n, origin, ai);
@@ -180,7 +180,7 @@ void sa_reset(const SaKnobs& k) {
     else if (S.knobs.backend == BE_DIRECT) free(b.user);
     b.live = false;
   }
-  S.blocks.clear(); S.live.clear(); S.live_bytes = 0; S.total_requests = 0; S.arena_freed.clear();
+  S.blocks.clear(); S.live.clear(); S.live_bytes = 0; S.live_xor = 0; S.total_requests = 0; S.arena_freed.clear();
   for (auto& w : S.win) w = OpWindow();
   S.knobs = k;
   if (k.backend == BE_ARENA) {
@@ -201,6 +201,7 @@ OpWindow& sa_window() { return W(); }
 
 uint64_t sa_live_count() { return S.live.size(); }
 uint64_t sa_live_bytes() { return S.live_bytes; }
+uint64_t sa_live_sig() { return hash_comb(S.live.size(), S.live_xor); }
 uint64_t sa_total_requests() { return S.total_requests; }
 const BlockInfo* sa_find(const void* p) { auto it = S.live.find(p); return it == S.live.end() ? nullptr : &S.blocks[it->second]; }
 const BlockInfo* sa_find_containing(const void* p) {
@@ -226,7 +227,7 @@ void sa_client_free(void* p) {
   auto it = S.live.find(p);
   if (it == S.live.end()) { fprintf(stderr, "HARNESS: client free of unknown pointer\n"); _exit(2); }
   BlockInfo& b = S.blocks[it->second];
-  S.live.erase(it); S.live_bytes -= b.size; b.live = false;
+  S.live.erase(it); S.live_bytes -= b.size; b.live = false; S.live_xor ^= mix64(b.id + 1);
   g_log.ev("client-free", b.id);
   backend_release(b);
 }
@@ -280,7 +281,7 @@ void* sim_realloc(void* ptr, size_t n) {
   uint64_t oid = it->second;
   bool refuse = should_refuse(w, true, n);
   w.requests++; S.total_requests++; w.reallocs++; w.realloc_req++;
-  if (refuse) { w.refused++; g_log.ev("refuse-realloc", oid, n, sched_cur()); return nullptr; }
+  if (refuse) { w.refused++; if (w.first_refused == ~0ull) w.first_refused = w.requests - 1; g_log.ev("refuse-realloc", oid, n, sched_cur()); return nullptr; }
   BlockInfo old = S.blocks[oid];
   if (old.task != sched_cur() && sched_active()) fail("C17", "alloc:cross-task-realloc", fmt("task %d resized block #%llu obtained by task %d", sched_cur(), (unsigned long long)oid, old.task));
   if (S.knobs.backend == BE_DIRECT && S.knobs.realloc_mode == 1) {
@@ -288,7 +289,7 @@ void* sim_realloc(void* ptr, size_t n) {
     unsigned char* np = (unsigned char*)realloc(old.user, n);
     if (!np) { w.refused++; sa_fired_toolarge++; return nullptr; }
     if (n > old.size) memset(np + old.size, 0xAA, n - old.size);
-    S.live.erase(old.user); S.live_bytes -= old.size; S.blocks[oid].live = false;
+    S.live.erase(old.user); S.live_bytes -= old.size; S.blocks[oid].live = false; S.live_xor ^= mix64(oid + 1);
     uint64_t nid = new_block(np, n, 1, -1);
     w.freed.push_back(oid); w.allocated.push_back(nid); w.moved.emplace_back(oid, nid);
     g_log.ev("realloc", oid, nid, n);
@@ -298,7 +299,7 @@ void* sim_realloc(void* ptr, size_t n) {
   int ai; unsigned char* np = backend_alloc(n, &ai);
   if (!np) { w.refused++; sa_fired_toolarge++; return nullptr; }
   memcpy(np, old.user, n < old.size ? n : old.size);
-  S.live.erase(old.user); S.live_bytes -= old.size; S.blocks[oid].live = false;
+  S.live.erase(old.user); S.live_bytes -= old.size; S.blocks[oid].live = false; S.live_xor ^= mix64(oid + 1);
   backend_release(S.blocks[oid]);
   uint64_t nid = new_block(np, n, 1, ai);
   w.freed.push_back(oid); w.allocated.push_back(nid); w.moved.emplace_back(oid, nid);
@@ -323,7 +324,7 @@ void sim_free(void* ptr) {
   }
   BlockInfo& b = S.blocks[it->second];
   if (b.task != sched_cur() && sched_active() && b.origin != 2) fail("C17", "alloc:cross-task-release", fmt("task %d released block #%llu obtained by task %d", sched_cur(), (unsigned long long)b.id, b.task));
-  S.live.erase(it); S.live_bytes -= b.size; b.live = false;
+  S.live.erase(it); S.live_bytes -= b.size; b.live = false; S.live_xor ^= mix64(b.id + 1);
   w.frees++; w.freed.push_back(b.id);
   g_log.ev("free", b.id, b.size, sched_cur());
   backend_release(b);
